@@ -281,8 +281,9 @@ def rule_w2(chk: Check):
         key_assign = [s for s in fn.body if isinstance(s, ast.Assign) and norm_stmt(s.targets[0]) == "key"]
         chk.count("W2-cache-hit")
         elts = [norm_stmt(e) for e in key_assign[0].value.elts] if len(key_assign) == 1 and isinstance(key_assign[0].value, ast.Tuple) else []
-        ok = sorted(elts) in (["args", "mark", "method_name"], ["()", "mark", "method_name"]) and \
-            any(isinstance(s, ast.Assign) and norm_stmt(s) == "mark = self._mark()" for s in fn.body)
+        has_mark = any(isinstance(s, ast.Assign) and norm_stmt(s) == "mark = self._mark()" for s in fn.body)
+        elts = ["mark" if (e == "self._mark()" or (e == "mark" and has_mark)) else e for e in elts]
+        ok = sorted(elts) in (["args", "mark", "method_name"], ["()", "mark", "method_name"])
         chk.require(ok, "W2-cache-hit", f"{inner}:key", where,
                     f"the cache key must be exactly (position mark, rule name, args) with mark = self._mark(); found {elts}: a key that "
                     f"also depends on other parser state (recursion depth, flags) misses for the same rule at the same position, and the "
